@@ -44,6 +44,10 @@ def run(ctx):
     ctx.rule("R4.cancel-forwards-or-restores", "auto drop_wait: is_notified() read under the lock; notified arm: notify_one+wake or store(SIGNALED); else unregister", floor=2)
     ctx.rule("R5.manual-drain", "fetch_or(IS_SET, release-ish) first; advance_generation dominates the drain loop; loop uses notify_one_prior_generation only", floor=3)
     ctx.rule("R6.orderings", "signal publication release-ish, signal consumption acquire-ish", floor=6)
+    ctx.rule("R8.local-borrow-not-across-wake", "single-threaded events: no `&mut` view of the waiter list / state obtained before a waker callback is used after it (the callback may re-enter and take its own)", floor=4)
+    ctx.rule("R8.local-signal-forwarding", "single-threaded auto-reset set / cancel-of-notified: notify_one's waker is woken, and when nobody waits the signal is stored (state = Set)", floor=4)
+    ctx.rule("R8.local-manual-set", "single-threaded manual-reset set: flag stored before the drain, advance_generation before the loop, loop drains prior generations until None, only skip is `already set`", floor=3)
+    ctx.rule("R8.local-poll", "single-threaded poll_wait: notification consumed first; register only while unset; the auto-reset signal is consumed exactly on the Ready arm", floor=4)
     ctx.rule("R7.awaiter-list-discipline", "generation stamped only on fresh tail-link; waker set before WAITING; NOTIFIED/IDLE after unlink; prior-generation test on the head", floor=6)
 
     for mod, sigconst in MODS:
@@ -244,6 +248,7 @@ def run(ctx):
             ctx.ob("R5.manual-drain", "skip-only-without-waiters", bool(edges) and not other, b.loc(),
                    f"sanctioned skip edges (previous & HAS_WAITERS == 0): {edges}; return reachable without draining by another route: {bool(other)}")
 
+    local_rules(ctx, prog)
     # ---------------- R7 awaiter_set
     reg = prog.one("AwaiterSet::register")
     if reg is None:
@@ -320,3 +325,220 @@ def run(ctx):
             sl = Slice(ag).run(ws[0][2]["rv"]["op"]) if ws[0][2]["rv"]["k"] == "use" else {"calls": [], "consts": []}
             ok = any(k.endswith("wrapping_add") or k.endswith("checked_add") for k, _, _ in sl["calls"]) and any(c.get("val") == 1 for c in sl["consts"])
         ctx.ob("R7.awaiter-list-discipline", "advance_generation:+1", ok, ag.loc(), "generation = generation + 1")
+
+
+def _uses_of(body, bb):
+    """Locals read by statements / terminator of a block (as bare or projected places)."""
+    out = []
+    blk = body.blocks[bb]
+
+    def add(o, sp):
+        pl = op_place(o)
+        if pl is not None:
+            out.append((pl["l"], sp))
+    for st in blk.stmts:
+        if st["k"] != "assign":
+            continue
+        rv = st["rv"]
+        for key in ("op", "a", "b"):
+            if isinstance(rv.get(key), dict):
+                add(rv[key], st.get("span"))
+        for o in rv.get("ops", []) or []:
+            add(o, st.get("span"))
+        if isinstance(rv.get("place"), dict):
+            out.append((rv["place"]["l"], st.get("span")))
+        if st["place"]["p"]:
+            out.append((st["place"]["l"], st.get("span")))
+    t = blk.term
+    if t["k"] == "call":
+        for o in t["args"]:
+            add(o, t.get("span"))
+    return out
+
+
+def local_rules(ctx, prog):
+    fns = {}
+    for mod in ("local_auto", "local_manual"):
+        for b in prog.bodies:
+            if b.key.startswith(f"events::{mod}::Inner::") and not b.is_closure:
+                fns[(mod, b.name)] = b
+        for need in ("set", "poll_wait", "drop_wait"):
+            if (mod, need) not in fns:
+                ctx.missing("R8.local-poll", f"{mod}::Inner::{need}")
+    # ---- borrow liveness across waker callbacks
+    for (mod, name), b in sorted(fns.items()):
+        ctx.fn(b)
+        wakes = [(bb, t) for bb, t in b.calls() if callee_paths(t["callee"]) & WAKER_FNS and not b.blocks[bb].cleanup]
+        for blk in b.blocks:
+            t = blk.term
+            if t["k"] == "drop" and not blk.cleanup and "task::Waker" in b.local_ty(t["place"]["l"])["s"]:
+                wakes.append((blk.idx, t))
+        if not wakes:
+            continue
+        defs = b.defs()
+        for i, (wbb, wt) in enumerate(wakes):
+            after = b.reachable(b.term_succ(wbb, False), unwind=False)
+            bad = []
+            for a in sorted(after):
+                if b.blocks[a].cleanup:
+                    continue
+                for l, sp in _uses_of(b, a):
+                    ty = b.local_ty(l)
+                    if ty["k"] != "refmut" or not ("AwaiterSet" in ty["s"] or "InnerState" in ty["s"]):
+                        continue
+                    dbbs = [d[0] for d in defs.get(l, [])]
+                    # fresh if every path from the callback to this use re-executes a definition of the reference
+                    okp = bool(dbbs) and all(x in after for x in dbbs) and b.must_pass(b.term_succ(wbb, False), dbbs, [a], unwind=False)
+                    okp = okp[0] if isinstance(okp, tuple) else okp
+                    if not okp:
+                        bad.append(f"_{l}:{ty['s'].split('::')[-1]}@{b.loc(sp) if sp else a}")
+            ctx.ob("R8.local-borrow-not-across-wake", f"{mod}.{name}.callback#{i}", not bad, b.loc(wt.get("span")),
+                   f"stale &mut views used after the callback: {sorted(set(bad))[:5]}" if bad else "every &mut view used after the callback is re-derived after it")
+    # ---- auto: signal forwarding in set and drop_wait
+    for name in ("set", "drop_wait"):
+        b = fns.get(("local_auto", name))
+        if b is None:
+            continue
+        n1 = calls_to(b, "AwaiterSet::notify_one")
+        wk = [(bb, t) for bb, t in b.calls() if t["callee"].get("method") == "wake" and "task::Waker" in callee_key(t["callee"])]
+        stores = []
+        for blk in b.blocks:
+            for st in blk.stmts:
+                if st["k"] == "assign" and st["place"]["p"] == ["*"] and "InnerState" in b.local_ty(st["place"]["l"])["s"]:
+                    c = resolve_const(b, st["rv"]["op"]) if st["rv"]["k"] == "use" else (st["rv"] if st["rv"]["k"] == "aggr" else None)
+                    var = (c or {}).get("variant")
+                    stores.append((blk.idx, var))
+        set_stores = [bb for bb, v in stores if v == "Set"]
+        ok = len(n1) == 1 and len(wk) == 1 and len(set_stores) >= 1
+        det = [f"notify_one sites {len(n1)}, wake sites {len(wk)}, `state = Set` stores {len(set_stores)}"]
+        if ok:
+            nbb, nt = n1[0]
+            # the woken waker is notify_one's result
+            sl = Slice(b).run(wk[0][1]["args"][0])
+            from_n = any(t is nt for _k, _b, t in sl["calls"])
+            # None arm -> store Set on every path
+            sw = b.blocks[nt["target"]].term if isinstance(nt.get("target"), int) else None
+            none_ok = False
+            if sw and sw["k"] == "switch":
+                none_t = [tg for lab, tg in sw["arms"] if lab == 0] or ([sw["otherwise"]] if all(lab == 1 for lab, _ in sw["arms"]) else [])
+                if none_t:
+                    r = b.must_pass(none_t, set_stores, b.exits(("return",)), unwind=False)
+                    none_ok = r[0] if isinstance(r, tuple) else r
+            # Set stored only when nobody was notified
+            only_none = True
+            for sb in set_stores:
+                gs = switch_guards(b, sb)
+                g = [x for x in gs if x["src"].get("kind") == "discr" and (guard_src_place(x["src"]) or {}).get("l") == nt["dest"]["l"]]
+                only_none = only_none and bool(g) and all(1 not in x["allowed"] for x in g)
+            # wake only with Some
+            ok = from_n and none_ok and only_none
+            det.append(f"woken waker is notify_one's result: {from_n}; None arm always stores Set: {none_ok}; Set stored only on the None arm: {only_none}")
+        ctx.ob("R8.local-signal-forwarding", f"local_auto.{name}.forward", ok, b.loc(), "; ".join(det))
+        if name == "drop_wait":
+            # decided by is_notified(); non-notified arm unregisters
+            isn = [(bb, t) for bb, t in b.calls() if t["callee"].get("method") == "is_notified"]
+            unr = calls_to(b, "AwaiterSet::unregister")
+            ok2 = len(isn) == 1 and len(unr) == 1 and len(n1) == 1
+            if ok2:
+                gu = [g for g in switch_guards(b, unr[0][0]) if g["src"].get("kind") == "call" and g["src"]["term"] is isn[0][1]]
+                gn = [g for g in switch_guards(b, n1[0][0]) if g["src"].get("kind") == "call" and g["src"]["term"] is isn[0][1]]
+                ok2 = bool(gu) and bool(gn) and all(g["allowed"] == {0} for g in gu) and all(0 not in g["allowed"] for g in gn)
+            ctx.ob("R8.local-signal-forwarding", "local_auto.drop_wait.decided-by-is_notified", ok2, b.loc(),
+                   "notified arm forwards (notify_one), other arm unregisters; both decided by one is_notified() read")
+        else:
+            # set: only the Unset arm notifies; Set arm does nothing (signal already stored)
+            ctx.ob("R8.local-signal-forwarding", "local_auto.set.no-other-exit", ok and path_count(b, [n1[0][0]] if n1 else [])[1] == 1, b.loc(),
+                   "notify_one reached at most once per call")
+    # ---- manual set
+    b = fns.get(("local_manual", "set"))
+    if b is not None:
+        dom = b.dominators(unwind=False)
+        st_true = [(bb, t) for bb, t in b.calls() if t["callee"].get("method") == "set" and "cell::Cell" in callee_key(t["callee"])
+                   and (resolve_const(b, t["args"][1]) or {}).get("val") == 1]
+        ag = calls_to(b, "AwaiterSet::advance_generation")
+        npg = calls_to(b, "AwaiterSet::notify_one_prior_generation")
+        n1 = calls_to(b, "AwaiterSet::notify_one")
+        ok = len(st_true) == 1 and len(ag) == 1 and len(npg) == 1 and not n1 and st_true[0][0] in dom[ag[0][0]] and \
+            ag[0][0] in dom[npg[0][0]] and b.in_loop(npg[0][0]) and not b.in_loop(ag[0][0])
+        ctx.ob("R8.local-manual-set", "flag-advance-drain-order", ok, b.loc(),
+               f"is_set.set(true) sites {len(st_true)} -> advance_generation {len(ag)} (outside loop) -> notify_one_prior_generation {len(npg)} (in loop); notify_one sites {len(n1)}")
+        if len(npg) == 1:
+            nbb = npg[0][0]
+            fwd = b.reachable(b.term_succ(nbb, False), unwind=False)
+            loop = {x for x in fwd if nbb in b.reachable(b.term_succ(x, False), unwind=False)} | {nbb}
+            exits_ok = True
+            n_ex = 0
+            dest = npg[0][1]["dest"]["l"]
+            for u in sorted(loop):
+                for v in b.term_succ(u, False):
+                    if v in loop or b.blocks[v].cleanup or b.blocks[u].cleanup:
+                        continue
+                    n_ex += 1
+                    t = b.blocks[u].term
+                    okx = False
+                    if t["k"] == "switch":
+                        src = discr_source(b, op_local(t["discr"]))
+                        pl = guard_src_place(src)
+                        labels = [lab for lab, tgt in t["arms"] if tgt == v]
+                        okx = src.get("kind") == "discr" and pl is not None and pl["l"] == dest and 1 not in labels
+                    exits_ok = exits_ok and okx
+            wk = [(bb, t) for bb, t in b.calls() if t["callee"].get("method") == "wake" and bb in loop]
+            from_n = bool(wk) and all(any(t2 is npg[0][1] for _k, _b, t2 in Slice(b).run(t["args"][0])["calls"]) for _bb, t in wk)
+            ctx.ob("R8.local-manual-set", "drain-until-none", exits_ok and n_ex >= 1 and from_n, b.loc(),
+                   f"loop exits only on the None arm: {exits_ok} ({n_ex} exit edge(s)); each drained waker is woken: {from_n}")
+        if st_true:
+            sbb = st_true[0][0]
+            rets = b.exits(("return",))
+            skip = b.reachable([0], unwind=False, avoid=[sbb])
+            edges = []
+            for blk in b.blocks:
+                t = blk.term
+                if t["k"] == "switch" and blk.idx in skip:
+                    src = discr_source(b, op_local(t["discr"]))
+                    if src.get("kind") == "call" and src["term"]["callee"].get("method") == "get" and \
+                            any(f.endswith("Inner::is_set") for f in Slice(b).run(src["term"]["args"][0])["fields"]):
+                        edges.append((blk.idx, t["otherwise"]))
+            skip2 = b.reachable([0], unwind=False, avoid=[sbb], avoid_edges=edges)
+            other = [r for r in rets if r in skip2]
+            ctx.ob("R8.local-manual-set", "skip-only-when-already-set", bool(edges) and not other, b.loc(),
+                   f"return without storing the flag only through `is_set.get() == true`: {bool(edges) and not other}")
+    # ---- poll_wait
+    for mod in ("local_auto", "local_manual"):
+        b = fns.get((mod, "poll_wait"))
+        if b is None:
+            continue
+        dom = b.dominators(unwind=False)
+        tn = [(bb, t) for bb, t in b.calls() if t["callee"].get("method") == "take_notification"]
+        reg = calls_to(b, "AwaiterSet::register")
+        ok = len(tn) == 1 and len(reg) == 1 and tn[0][0] in dom[reg[0][0]]
+        if ok:
+            g = [x for x in switch_guards(b, reg[0][0]) if x["src"].get("kind") == "call" and x["src"]["term"] is tn[0][1]]
+            ok = bool(g) and all(x["allowed"] == {0} for x in g)
+        ctx.ob("R8.local-poll", f"{mod}.notification-first", ok, b.loc(),
+               "take_notification() is read once, dominates the registration, and registration happens only when it returned false")
+        if len(reg) == 1:
+            rbb = reg[0][0]
+            gs = switch_guards(b, rbb)
+            if mod == "local_manual":
+                g = [x for x in gs if x["src"].get("kind") == "call" and x["src"]["term"]["callee"].get("method") == "get" and
+                     any(f.endswith("Inner::is_set") for f in Slice(b).run(x["src"]["term"]["args"][0])["fields"])]
+                ok = bool(g) and all(x["allowed"] == {0} for x in g)
+                ctx.ob("R8.local-poll", f"{mod}.register-only-while-unset", ok, b.loc(reg[0][1]["span"]),
+                       "registration is on the is_set.get() == false arm")
+            else:
+                g = [x for x in gs if x["src"].get("kind") == "discr" and "InnerState" in b.local_ty((guard_src_place(x["src"]) or {"l": 0})["l"])["s"]]
+                ok = bool(g) and all(x["allowed"] and 1 not in x["allowed"] for x in g)
+                # consumption: `*state = Unset(new)` only on the Set arm, which returns Ready
+                cons = []
+                for blk in b.blocks:
+                    for st in blk.stmts:
+                        if st["k"] == "assign" and st["place"]["p"] == ["*"] and "InnerState" in b.local_ty(st["place"]["l"])["s"]:
+                            cons.append(blk.idx)
+                c_ok = len(cons) == 1
+                if c_ok:
+                    g2 = [x for x in switch_guards(b, cons[0]) if x["src"].get("kind") == "discr" and
+                          "InnerState" in b.local_ty((guard_src_place(x["src"]) or {"l": 0})["l"])["s"]]
+                    c_ok = bool(g2) and all(x["allowed"] == {1} for x in g2) and rbb not in b.reachable([cons[0]], unwind=False)
+                ctx.ob("R8.local-poll", f"{mod}.register-only-while-unset", ok, b.loc(reg[0][1]["span"]), "registration is on the Unset arm of the state")
+                ctx.ob("R8.local-poll", f"{mod}.consume-on-ready", c_ok, b.loc(),
+                       f"the stored signal is consumed (state = Unset) at {len(cons)} site(s), only on the Set arm, which does not register")
